@@ -25,7 +25,7 @@ ASSUMPTIONS = [
     "structural rulebook signature covers patterns, flags, logic/diff_logic/apply_logic qualified names, params, nesting",
 ]
 EXHAUSTIVE = {"quick": True, "thorough": True}
-FLOORS = {"quick": {"entries": 168, "rulebooks_loaded": 100, "registry_orders": 100, "cross_process_signatures": 20, "shared_provider_loads": 200},
+FLOORS = {"quick": {"entries": 168, "rulebooks_loaded": 100, "registry_orders": 100, "cross_process_signatures": 20, "shared_provider_loads": 200, "shared_provider_loads_of_respelled_models": 300, "spellings_that_are_other_hardware": 20},
           "thorough": {"entries": 168, "rulebooks_loaded": 100, "registry_orders": 100, "cross_process_signatures": 20}}
 SOFTS = ["", "Cumulus Linux 4.4", "VRP V200R005"]
 
@@ -248,8 +248,18 @@ def run_shard(spec, acc):
         from annet.annlib.netdev.views.hardware import HardwareView
         from annet.rulebook import DefaultRulebookProvider, get_rulebook
         models = sorted({mdl for _, mdl in work + canon + extra if mdl})
+        # other spellings of the same model strings (letter case, surrounding blanks): the device database reads them case-sensitively
+        # below the vendor, so they may be other hardware - the provider must not take one for the other
+        variants = set()
+        for mdl in models:
+            head, _, tail = mdl.partition(" ")
+            for v_ in (head + " " + tail.lower(), head + " " + tail.upper(), mdl.lower(), mdl + " ", mdl.title()):
+                if v_ != mdl and v_ not in models:
+                    variants.add(v_)
+        models = sorted(set(models) | variants)
         prng = random.Random("C18/shared/%s/%s" % (spec["seed"], spec["perm"]))
         prng.shuffle(models)
+        fresh_by_key = {}
         shared = DefaultRulebookProvider()
         for mdl in models:
             hw = HardwareView(mdl, "")
@@ -265,11 +275,15 @@ def run_shard(spec, acc):
                               {"model": mdl, "soft": "", "error": repr(e)[:300]})
                 continue
             acc.count("shared_provider_loads")
+            if mdl in variants:
+                acc.count("shared_provider_loads_of_respelled_models")
+            fresh_by_key.setdefault(mdl.strip().lower(), set()).add(fresh)
             acc.case([mdl, "shared", spec["perm"]], nontrivial=True)
             for how, hh in got.items():
                 if hh != fresh:
                     acc.violation("C18/rulebook-depends-on-load-history", "a provider that served other models before returns a different rulebook than a fresh provider",
                                   {"model": mdl, "soft": "", "how": how, "order_prefix": models[:models.index(mdl)][-6:]})
+        acc.count("spellings_that_are_other_hardware", sum(1 for v_ in fresh_by_key.values() if len(v_) > 1))
         return
     if spec["mode"] == "xproc":
         # signatures in this process vs a fresh process with another hash seed
